@@ -1,15 +1,20 @@
 #!/bin/sh
 # usage: tools/try_mutant.sh <seeded-id> <property>...
-# Applies /verif/seeded/<id>/patch.diff to /repo, runs the given checks, reverts.
+# Applies /verif/seeded/<id>/patch.diff to /repo, runs the given quick checks
+# against it (evidence and replays go to a scratch VERIF_DIR, not /verif), reverts.
 set -u
 ID=$1; shift
 P=/verif/seeded/$ID/patch.diff
 cd /repo || exit 2
 if ! git diff --quiet; then echo "repo has uncommitted changes"; exit 2; fi
 git apply "$P" || { echo "patch does not apply"; exit 2; }
-trap 'git -C /repo checkout -- . ' EXIT
+V=$(mktemp -d /tmp/trymut.XXXXXX)
+cp /verif/known_findings.json /verif/expected_obligations.json /verif/MANIFEST.json $V/
+trap 'git -C /repo checkout -- . ; rm -rf $V' EXIT
 for prop in "$@"; do
   echo "=== $ID vs $prop"
-  (cd /verif && ./check "$prop" quick 2>&1 | grep -v "^KNOWN" | tail -12)
-  echo "exit=$?"
+  VERIF_DIR=$V /verif/bin/govc check "$prop" > $V/out.txt 2>&1
+  RC=$?
+  grep -v "^KNOWN" $V/out.txt | tail -12
+  echo "exit=$RC"
 done
